@@ -595,7 +595,7 @@ class CFG:
                 if depth > 0:
                     v = self.origin_expr(d, v, depth - 1, tests) or v
                 mapping[name] = v
-            elif tests and _pure_test(v) and not isinstance(v, ast.BoolOp) and not self._assigned_in_function(v):
+            elif tests and _pure_test(v) and not self._assigned_in_function(v):
                 if depth > 0:
                     v = self.origin_expr(d, v, depth - 1, tests) or v
                 test_mapping[name] = v
